@@ -263,13 +263,15 @@ impl Machine {
                         let mut a = self.r[0];
                         loop {
                             let c = self.mem[a as usize];
-                            if c & 0xFF == 0 {
-                                if c != 0 {
-                                    io.out_unjudged = true;
-                                }
+                            // "Writing terminates with the occurrence of x0000 in a memory
+                            // location": a word xNN00 does not end the string. Its character is
+                            // NUL, which is judged like PUTSP's padding (dropped on both sides).
+                            if c == 0 {
                                 break;
                             }
-                            io.out.push((c & 0xFF) as u8 as char);
+                            if c & 0xFF != 0 {
+                                io.out.push((c & 0xFF) as u8 as char);
+                            }
                             a = a.wrapping_add(1);
                             if a == self.r[0] {
                                 break; // whole memory is non-zero: one lap
